@@ -96,6 +96,20 @@ def menu_inuse():
 
 
 INUSE = [False]
+CHURN = [False]
+
+
+def menu_churn():
+    """rules with filtered wildcards, edited while ANOTHER router of the process registers many rules with filters of their own"""
+    return [('add', '/a/{x:int}'), ('addm', '/a/{x:int}', 'PO'), ('add', '/i/{n:int}/p'), ('add', '/i/{n:int}-v'), ('rm', '/i/{n:int}/p'),
+            ('add', '/a/{x}/c'), ('rmp', '/i/{n:int}*'), ('hook', '/a/{y}')]
+
+
+def churn(om):
+    """what other routers of the process do meanwhile: 130 rules with 130 different filters (filters are built by a process-wide factory)"""
+    other = om.Ombott()
+    for i in range(130):
+        other.route('/churn%d/{v:re(k%dx)}' % (i, i), 'GET', lambda v: v)
 
 
 def shards(tier, seed):
@@ -104,6 +118,7 @@ def shards(tier, seed):
     out = [('bfs', i, depth) for i in range(len(m))]
     out += [('inuse', i, 4 if tier == 'quick' else 6) for i in range(len(menu_inuse()))]
     out += [('spell', i, 4 if tier == 'quick' else 6) for i in range(len(menu_spell()))]
+    out += [('churn', i, 3 if tier == 'quick' else 4) for i in range(len(menu_churn()))]
     out.append(('extra', seed % 3, 3))
     return out
 
@@ -349,6 +364,8 @@ def build(om, hist, menu_rules=None):
     outcomes = []
     for op in hist:
         outcomes.append(apply_real(app, op, log))
+        if CHURN[0]:
+            churn(om)
         if INUSE[0]:
             # the router serves lookups between the edits
             for path in PROBES:
@@ -509,10 +526,12 @@ def judge_state(om, hist, built=None, rules=None, hooks=None):
 
 def work(spec):
     INUSE[0] = spec[0] == 'inuse'
+    CHURN[0] = spec[0] == 'churn'
     try:
         return _work(spec)
     finally:
         INUSE[0] = False
+        CHURN[0] = False
 
 
 def _work(spec):
@@ -537,6 +556,9 @@ def _work(spec):
     elif kind == 'spell':
         m = menu_spell()
         first = [m[a]]
+    elif kind == 'churn':
+        m = menu_churn()
+        first = [m[a]]
     else:
         first = [m[a]]
 
@@ -559,7 +581,7 @@ def _work(spec):
             c['model_vs_fresh_disagreements'] += 1
         res['outcomes'].add('state ok' if not probs else 'state ' + probs[0][0])
         for cls, text in probs[:2]:
-            core.add_violation(res, {'kind': 'state', 'hist': [list(o) for o in hist], 'extra': a if kind == 'extra' else None, 'inuse': INUSE[0]},
+            core.add_violation(res, {'kind': 'state', 'hist': [list(o) for o in hist], 'extra': a if kind == 'extra' else None, 'inuse': INUSE[0], 'churn': CHURN[0]},
                                f'after {list(hist)!r}: {text}', sig=cls)
         return not probs
 
@@ -571,13 +593,13 @@ def _work(spec):
             c['rejected_ops'] += 1
             side_effects = op[0] in ('addn', 'addnp')          # name conflict keeps route + method (reference decision)
             if out is None:
-                core.add_violation(res, {'kind': 'transition', 'hist': [list(o) for o in hist + (op,)], 'extra': a if kind == 'extra' else None, 'inuse': INUSE[0]},
+                core.add_violation(res, {'kind': 'transition', 'hist': [list(o) for o in hist + (op,)], 'extra': a if kind == 'extra' else None, 'inuse': INUSE[0], 'churn': CHURN[0]},
                                    f'after {list(hist)!r} the operation {op!r} must be rejected, it was accepted', sig='accepted-bad-op')
             elif ka != kb and not side_effects and fingerprint(app, rules) != fingerprint(build(om, hist)[0], rules):
-                core.add_violation(res, {'kind': 'transition', 'hist': [list(o) for o in hist + (op,)], 'extra': a if kind == 'extra' else None, 'inuse': INUSE[0]},
+                core.add_violation(res, {'kind': 'transition', 'hist': [list(o) for o in hist + (op,)], 'extra': a if kind == 'extra' else None, 'inuse': INUSE[0], 'churn': CHURN[0]},
                                    f'after {list(hist)!r} the rejected operation {op!r} ({out}) changed the router', sig='reject-not-atomic')
         elif exp == 'accept' and out is not None:
-            core.add_violation(res, {'kind': 'transition', 'hist': [list(o) for o in hist + (op,)], 'extra': a if kind == 'extra' else None, 'inuse': INUSE[0]},
+            core.add_violation(res, {'kind': 'transition', 'hist': [list(o) for o in hist + (op,)], 'extra': a if kind == 'extra' else None, 'inuse': INUSE[0], 'churn': CHURN[0]},
                                f'after {list(hist)!r} the operation {op!r} raised {out}', sig='spurious-reject:' + out)
 
     def build_k(h):
@@ -613,10 +635,14 @@ def _extra(case):
 
 def replay(case):
     INUSE[0] = bool(case.get('inuse'))
+    CHURN[0] = bool(case.get('churn'))
     try:
         r = _replay(case)
     finally:
         INUSE[0] = False
+        CHURN[0] = False
+    if r and case.get('churn'):
+        r = 'another router of the process registers 130 rules with filters of their own after every operation: ' + r
     if r and case.get('inuse'):
         r = 'router in use (all probe paths looked up after every operation): ' + r
     return r
@@ -647,4 +673,5 @@ def _replay(case):
         return f'after {list(hist[:-1])!r} the operation {hist[-1]!r} raised {out}'
     return None
 
+MANIFEST['text'] += ' A churn shard edits filtered-wildcard rules while another router of the process registers 130 rules with other filters after every operation.'
 MANIFEST['text'] += ' A spelling shard registers, finds and removes one pattern under its three spellings one level deeper.'
